@@ -87,7 +87,9 @@ mod misc {
                 allow_external_function_fallbacks: false,
                 externals: HashMap::with_capacity(0),
                 #[cfg(feature = "verif-hooks")]
-                verif_fuel: None,
+                verif_fuel: std::env::var("VERIF_NEW_FUEL")
+                    .ok()
+                    .and_then(|v| v.parse().ok()),
                 #[cfg(feature = "verif-hooks")]
                 verif_step_clock: false,
             };
